@@ -589,7 +589,8 @@ Proof.
       try assumption; try reflexivity;
       try (apply Hi1; rewrite E; auto; fail);
       try (apply Hi1; rewrite E0; auto; fail);
-      try (apply Hi1; auto; fail).
+      try (apply Hi1; auto; fail);
+      try (unfold in_cleanup in Ha; rewrite E in Ha; destruct Ha as [Ha|[Ha|Ha]]; discriminate Ha).
   - apply Hpa.
     destruct l; unfold step in H0; inv_step H0; use_cancel_spec; cbn in Ha;
       try (apply Hi2; exact Ha);
@@ -598,6 +599,7 @@ Proof.
              pose proof (act_after_cancel_late _ _ Hc (or_intror Ha)) as Hk; rewrite Hk in Ha; apply Hi2; exact Ha end);
       try (apply Hi2; rewrite E; auto; fail);
       try (apply Hi2; auto; fail); try reflexivity;
+      try (rewrite E in Ha; destruct Ha as [Ha|Ha]; discriminate Ha);
       try (match goal with E : ph s TAuth = PDone _ |- _ => rewrite E; reflexivity end).
 Qed.
 
@@ -842,6 +844,14 @@ Definition tr_failed_startup : list label :=
    Finish (TRoot RNsObs) OCancelled; Finish (TRoot ROrch) OCancelled; RootsStopped; GraceTimeout GHung;
    Finish TWaiter OCancelled; Return (RErr EStartup)].
 Lemma failed_startup_accepted : returned_with tr_failed_startup (RErr EStartup) = true.
+Proof. vm_compute. reflexivity. Qed.
+
+(* handler 0 fails for good in round 1, handler 1 fails temporarily and succeeds in round 2: still StartupFail *)
+Definition tr_mixed_rounds : list label :=
+  [StartupHandler 0 HPerm; StartupHandler 1 HTemp; StartupHandler 1 HOk] ++ tr_failed_startup.
+Lemma mixed_rounds_accepted : returned_with tr_mixed_rounds (RErr EStartup) = true.
+Proof. vm_compute. reflexivity. Qed.
+Lemma mixed_rounds_no_ok : accepts ([StartupHandler 0 HPerm; StartupHandler 1 HTemp; StartupHandler 1 HOk] ++ [StartupOk]) = false.
 Proof. vm_compute. reflexivity. Qed.
 
 (* a root task fails: the operator stops and re-raises *)
